@@ -7,6 +7,7 @@
 
 mod case;
 mod core;
+mod dict;
 mod driver;
 mod exec;
 mod faults;
